@@ -8,6 +8,7 @@
  *   cf cmp <flags> <loc> <hex1> <hex2>  gp_str_compare(s1 as GPString, s2 as exact-size plain buffer)
  *   cf sort <flags> <loc> <hex>...      gp_str_sort of an array of heap strings
  *   cf rep <n> <one of the above>       the same call n times (fresh copy of the input each time)
+ *   cf [rep <n>] pre <bytes> <call>     the caller first takes <bytes> from the scratch arena itself
  * loc: "-" = "", otherwise the locale code.   flags: letters f (fold) c (collate) r (reverse), "-" = none.
  *
  * output:  <result> d=<scratch position changed? 0/1> m:<sizes requested from the heap by the call(s)> f:<frees>
@@ -113,6 +114,9 @@ static void* run_line(void* arg)
     char** t = T + 1; int n = NT - 1;
     unsigned long reps = 1;
     if (n >= 2 && !strcmp(t[0], "rep")) { reps = strtoul(t[1], NULL, 10); t += 2; n -= 2; }
+    /* "pre <bytes>": the caller holds a scratch allocation of its own when the call is made (the scratch position
+     * is then somewhere inside, or exactly at the end of, a node) */
+    if (n >= 2 && !strcmp(t[0], "pre")) { (void)gp_mem_alloc((GPAllocator*)gp_scratch_arena(), strtoull(t[1], NULL, 10)); t += 2; n -= 2; }
     void* before = gp_mem_alloc((GPAllocator*)gp_scratch_arena(), 0);   /* creates the arena; position at entry */
     size_t mark = th_count, frees0 = th_frees;
     int ok = 1;
